@@ -117,6 +117,63 @@ func c15APIUse(r *Run) {
 		}
 		rig.Close()
 	}
+	// large messages (above the codec's 1 KiB buffer-pooling threshold) back to back on by-reference
+	// transports, both directions, with unary calls of the same size class alongside: every byte a
+	// receiver reads must be ordered after the sender's last write of it
+	for _, serialise := range []bool{false, true} {
+		rig := NewRig(RigOpt{Serialise: serialise})
+		rig.Impl.SetUnary(func(ctx context.Context, req []byte) ([]byte, error) { return req, nil })
+		rig.Impl.SetStream(func(method string, ss grpc.ServerStream) error {
+			big := make([]byte, 3000)
+			for i := 0; i < 24; i++ {
+				big[0] = byte(i)
+				if sendB(ss, big) != nil {
+					return nil
+				}
+			}
+			for {
+				if _, err := recvB(ss); err != nil {
+					return nil
+				}
+			}
+		})
+		for i, n := 0, r.Scale(6, 40); i < n; i++ {
+			r.Progress("apiuse.large", map[string]any{"round": i, "serialise": serialise})
+			cs, err := rig.CC.NewStream(context.Background(), descBidi, mBidi)
+			if err != nil {
+				continue
+			}
+			var wg sync.WaitGroup
+			wg.Add(2)
+			go func() {
+				defer wg.Done()
+				big := make([]byte, 2500)
+				for k := 0; k < 12; k++ {
+					big[1] = byte(k)
+					if sendB(cs, big) != nil {
+						break
+					}
+				}
+				cs.CloseSend()
+			}()
+			go func() {
+				defer wg.Done()
+				big := make([]byte, 2800)
+				for k := 0; k < 6; k++ {
+					callUnary(context.Background(), rig.CC, big)
+				}
+			}()
+			for {
+				if _, err := recvB(cs); err != nil {
+					break
+				}
+			}
+			wg.Wait()
+			r.Eval(fmt.Sprintf("apiuse/large/%v/%d", serialise, i), true)
+			r.Count("apiuse.large")
+		}
+		rig.Close()
+	}
 	// the proxy: a peer attaches itself (AddClient) under a name for which an outgoing dial is still in
 	// flight, or has just completed, with no synchronisation between the two but the proxy's own; the dial
 	// takes its time by sleeping (a gate channel would order the accesses)
